@@ -763,6 +763,8 @@ def gc_final(sim, graph, props, restriction, scenario, param_dict, shadow):
             if eager is not None:
                 sim.graph_violations += graphcheck.compare_lazy_eager(graph, eager, "lazy-vs-eager")
                 sim.graph_probes["lazy-eager-compared"] = sim.graph_probes.get("lazy-eager-compared", 0) + 1
+    if "C09" in props and shadow is not None:
+        sim.graph_violations += shadow.check(graph, "end-of-run", prop="C09")
     if "C07" in props and lazy:
         from travsim import resolver
         sim.graph_violations += resolver.check_dependencies(graph, resolver.suite_path_of(scenario), "end-of-run")
@@ -827,7 +829,7 @@ def run_epoch(sim, epoch_cfg, logs_dir):
     try:
         restriction = scenario["tests"]
         if scenario.get("mode", "lazy") == "eager":
-            if graph_props and "C16" in graph_props:
+            if graph_props and ("C16" in graph_props or "C09" in graph_props):
                 shadow = graphcheck.RegisterShadow()
                 shadow.install()
             graph = TestGraph.parse_object_trees(
@@ -836,7 +838,7 @@ def run_epoch(sim, epoch_cfg, logs_dir):
             if graph_props:
                 gc_eager(sim, graph, graph_props, restriction, scenario, param_dict)
         else:
-            if graph_props and "C16" in graph_props:
+            if graph_props and ("C16" in graph_props or "C09" in graph_props):
                 shadow = graphcheck.RegisterShadow()
                 shadow.install()
             flat = TestGraph.parse_flat_nodes(restriction, dict(param_dict))
